@@ -25,7 +25,7 @@ for pid in ids:
     })
 m = {
     "version": 1,
-    "setup_cmd": "cd /verif/harness && CARGO_NET_OFFLINE=true CARGO_TARGET_DIR=/verif/.build/target cargo build --offline --release --bins",
+    "setup_cmd": "cd /verif/harness && CARGO_NET_OFFLINE=true CARGO_TARGET_DIR=/verif/.build/target cargo build --offline --release --bins && CARGO_NET_OFFLINE=true CARGO_TARGET_DIR=/verif/.build/target cargo build --offline --release --bin c20 --features az && python3 /verif/checks/c20_driver.py --warm",
     "hooks": {
         "guard": "vek_verif",
         "enable": "none needed: every check observes vek through its public API and public fields; RUSTFLAGS=\"--cfg vek_verif\" is reserved and currently guards nothing",
@@ -38,8 +38,8 @@ m = {
          "kind_free_text": "explorer G: exhaustive enumeration of bounded input/configuration spaces (simplex lattices, product grids, whole 8-bit domains) on the real generic vek code instantiated with exact / symbolic element types, compared with reference models on public fields"},
         {"name": "stateright", "path": "/verif/harness/src/bin (c03.rs, c07.rs, c18.rs)", "serves_properties": [p for p in ids if checks.get(p, {}).get("engine") == "stateright"],
          "kind_free_text": "explorer S: explicit-state BFS (stateright 0.31) over API call sequences / iterator histories; every transition executes the real vek functions and compares with a reference model"},
-        {"name": "features", "path": "/verif/checks/c20_driver.py", "serves_properties": [p for p in ids if checks.get(p, {}).get("engine") == "features"],
-         "kind_free_text": "explorer F: enumeration of cargo feature configurations, each built from /repo's working tree"},
+        {"name": "features", "path": "/verif/checks/c20_driver.py, /verif/checks/digest, /verif/harness/src/bin/c20.rs", "serves_properties": [p for p in ids if checks.get(p, {}).get("engine") == "features"],
+         "kind_free_text": "explorer F: enumeration of cargo feature configurations, each built from /repo's working tree together with a behavioural digest program whose output is compared across configurations; plus explorer G sections (numeric lifts, casts, approx, mint/bytemuck) in the c20 binary"},
     ],
     "checks": out_checks,
     "not_applicable": na,
